@@ -109,12 +109,16 @@ pub fn keyset(k: u32, dir: u8) -> (Vec<u8>, Vec<u8>) {
     let salt = (0..14u32).map(|i| (k.wrapping_mul(53) + dir as u32 * 59 + i * 11 + 3) as u8).collect();
     (key, salt)
 }
-fn session(k: u32) -> SrtpSession {
-    let (tk, ts) = keyset(k, 0);
-    let (rk, rs) = keyset(k, 1);
+/// key ids ≡ 5 (mod 10) stand for unusable key material: `SrtpSession::new` accepts any length, every
+/// `SrtpContext::new` then fails, so every `protect_*` / `unprotect_*` returns `Err`
+pub fn broken(k: u32) -> bool { k % 10 == 5 }
+pub fn session(k: u32) -> SrtpSession {
+    let (mut tk, ts) = keyset(k, 0);
+    let (mut rk, rs) = keyset(k, 1);
+    if broken(k) { tk.truncate(5); rk.truncate(5); }
     SrtpSession::new(SrtpProfile::Aes128Sha1_80, SrtpKeyingMaterial::new(tk, ts), SrtpKeyingMaterial::new(rk, rs)).unwrap()
 }
-fn ref_ctx(k: u32, dir: u8) -> Context {
+pub fn ref_ctx(k: u32, dir: u8) -> Context {
     let (key, salt) = keyset(k, dir);
     Context::new(&key, &salt, ProtectionProfile::Aes128CmHmacSha1_80, None, None).unwrap()
 }
@@ -155,14 +159,17 @@ impl RefAuth {
 }
 
 /// key ids a transport `t` may be given: 10t, 10t+1 (so the owner of a protected datagram is key/10)
-pub const KEYS: [u32; 6] = [0, 1, 10, 11, 20, 21];
+pub const KEYS: [u32; 6] = [0, 1, 10, 11, 20, 21]; // usable key sets; 5, 15, 25 are the unusable ones
 pub const NT: usize = 3;
 
 // ---------------------------------------------------------------------------------------------
 // ops
 
 #[derive(Clone, Debug, PartialEq)]
-pub enum Wire { Clear, Garbage, Prot(u32, bool) }
+/// `Prot(key, ok, forgery)`: forgery shape when !ok — 0 last tag byte flipped, 1 tag truncated by 4 bytes,
+/// 2 (RTCP) E bit cleared, 3 another tag bit flipped.  (A REPLAY of an accepted datagram is authentic, hence not
+/// in this set: whether a session accepts it is C05's subject — today rustrtc has no replay window at all.)
+pub enum Wire { Clear, Garbage, Prot(u32, bool, u8) }
 
 #[derive(Clone, Debug, PartialEq)]
 pub enum Op {
@@ -176,6 +183,7 @@ pub enum Op {
     Bridge(usize, usize, Option<usize>),
     ClearBridge(usize),
     Close(usize),
+    Flags(usize, bool, bool, bool),
 }
 impl Op {
     fn kind(&self) -> &'static str {
@@ -183,7 +191,7 @@ impl Op {
             Op::Keys(..) => "install_keys", Op::SendRtp(_) => "send_rtp", Op::SendRaw(..) => "send_raw",
             Op::SendRtcp(_) => "send_rtcp", Op::SyncBye(_) => "send_rtcp_sync", Op::RecvRtp(..) => "recv_rtp",
             Op::RecvRtcp(..) => "recv_rtcp", Op::Bridge(..) => "bridge", Op::ClearBridge(_) => "clear_bridge",
-            Op::Close(_) => "close",
+            Op::Close(_) => "close", Op::Flags(..) => "set_flags",
         }
     }
 }
@@ -270,10 +278,29 @@ fn classify(sys: &mut Sys, b: &[u8]) -> (char, String, Option<u32>) {
     for k in KEYS {
         let ra = sys.auth.entry(k).or_insert_with(|| RefAuth::new(k, 0));
         // authentic under key set k AND the reference implementation decrypts it
-        let ok = if rtcp { ra.rtcp_ok(b) && ref_ctx(k, 0).decrypt_rtcp(b).is_ok() } else { ra.rtp_ok(b) && ref_ctx(k, 0).decrypt_rtp(b).is_ok() };
+        // … AND the reference implementation decrypts it to something DIFFERENT from what is on the wire: an
+        // authenticated datagram whose payload travels in clear (NULL cipher) is not "protected"
+        let ok = if rtcp {
+            ra.rtcp_ok(b) && ref_ctx(k, 0).decrypt_rtcp(b).ok().map(|pt| pt.len() <= 8 || pt[8..] != b[8..pt.len()]).unwrap_or(false)
+        } else {
+            ra.rtp_ok(b) && ref_ctx(k, 0).decrypt_rtp(b).ok().and_then(|pt| RtpPacket::parse(&pt).ok())
+                .map(|p| p.payload.is_empty() || !b[..b.len() - 10].ends_with(&p.payload)).unwrap_or(false)
+        };
         if ok { return (if rtcp { 'c' } else { 'r' }, format!("P{}.{}", k / 10, k), Some(k)); }
     }
     (if rtcp { 'c' } else { 'r' }, "C".into(), None)
+}
+
+/// one of several shapes of an unauthentic "protected" datagram; returns the bytes and the op-line letter
+fn forge(good: &[u8], shape: u8, rtcp: bool, last: Option<&(u32, Vec<u8>, u32)>, k: u32, generation: u32) -> (Vec<u8>, char) {
+    let mut b = good.to_vec();
+    let l = b.len();
+    match shape {
+        1 => { b.truncate(l - 4); (b, 't') }                                   // tag truncated
+        2 if rtcp => { b[l - 14] &= 0x7f; (b, 'e') }                            // SRTCP E bit cleared, tag untouched
+        3 => { let _ = (last, k, generation); b[l - 5] ^= 0x80; (b, 'b') }        // a bit flipped inside the tag / index
+        _ => { b[l - 1] ^= 0x01; (b, 'b') }                                     // last tag byte flipped
+    }
 }
 
 pub struct Outcome { pub events: Vec<String>, pub fails: Vec<(String, String)>, pub unstable: bool }
@@ -282,6 +309,8 @@ pub struct Outcome { pub events: Vec<String>, pub fails: Vec<(String, String)>, 
 pub async fn exec(net: &Net, cfg: &Cfg, ops: &[Op]) -> (Outcome, Vec<String>) {
     let mut sys = build(net, cfg);
     let mut installed: [Option<u32>; NT] = [None; NT]; // harness' own bookkeeping of "the session keys"
+    let mut generation: [u32; NT] = [0; NT];            // how often a session was installed on each transport
+    let mut last_good: HashMap<(usize, bool), (u32, Vec<u8>, u32)> = HashMap::new();
     let mut events = vec![];
     let mut fails: Vec<(String, String)> = vec![];
     let mut unstable = false;
@@ -297,7 +326,17 @@ pub async fn exec(net: &Net, cfg: &Cfg, ops: &[Op]) -> (Outcome, Vec<String>) {
         let mut inj_rtcp: Option<Vec<RtcpPacket>> = None;
         let text;
         match op {
-            Op::Keys(t, k) => { sys.tr[*t].start_srtp(session(*k)); installed[*t] = Some(*k); text = format!("k,{t},{k}"); }
+            Op::Keys(t, k) => { sys.tr[*t].start_srtp(session(*k)); installed[*t] = Some(*k); generation[*t] += 1; text = format!("k,{t},{k}"); }
+            Op::Flags(t, l, r, o) => {
+                // (re-)registration at any moment: everything is cleared, then what is asked for is registered afresh
+                sys.tr[*t].clear_listeners();
+                sys.tr[*t].clear_observers();
+                sys.lis[*t] = None; sys.rl[*t] = None;
+                if *l { let (tx, rx) = mpsc::channel(64); sys.tr[*t].register_provisional_listener(tx); sys.lis[*t] = Some(rx); }
+                if *r { let (tx, rx) = mpsc::channel(64); sys.tr[*t].register_rtcp_listener(tx); sys.rl[*t] = Some(rx); }
+                if *o { sys.tr[*t].add_observer(sys.obs[*t].clone()); }
+                text = format!("fl,{t},{},{},{}", *l as u8, *r as u8, *o as u8);
+            }
             Op::SendRtp(t) => {
                 sys.seq = sys.seq.wrapping_add(1); sys.n += 1;
                 ret = Some(sys.tr[*t].send_rtp(local_rtp(*t, sys.seq, sys.n)).await.is_ok());
@@ -338,12 +377,15 @@ pub async fn exec(net: &Net, cfg: &Cfg, ops: &[Op]) -> (Outcome, Vec<String>) {
                 let (bytes, wt) = match w {
                     Wire::Clear => (plain, "c".to_string()),
                     Wire::Garbage => (vec![0x80, AUDIO_PT, 0], "g".to_string()),
-                    Wire::Prot(k, ok) => {
+                    Wire::Prot(k, ok, shape) => {
                         let ctx = sys.enc.entry(*k).or_insert_with(|| ref_ctx(*k, 1));
                         let mut b = ctx.encrypt_rtp(&plain).unwrap().to_vec();
-                        if !*ok { let l = b.len(); b[l - 1] ^= 0x01; }
+                        let mut letter = 'o';
+                        if *ok {
+                            if installed[*t] == Some(*k) && !broken(*k) { last_good.insert((*t, false), (*k, b.clone(), generation[*t])); }
+                        } else { let (fb, l) = forge(&b, *shape, false, last_good.get(&(*t, false)), *k, generation[*t]); b = fb; letter = l; }
                         let as_clear = RtpPacket::parse(&b).is_ok();
-                        (b, format!("{}{}", match (ok, as_clear) { (true, true) => 'o', (false, true) => 'b', (true, false) => 'O', (false, false) => 'B' }, k))
+                        (b, format!("{}{}", if as_clear { letter } else { letter.to_ascii_uppercase() }, k))
                     }
                 };
                 inj = Some((*t, w.clone(), payload));
@@ -357,12 +399,15 @@ pub async fn exec(net: &Net, cfg: &Cfg, ops: &[Op]) -> (Outcome, Vec<String>) {
                 let (bytes, wt) = match w {
                     Wire::Clear => (plain, "c".to_string()),
                     Wire::Garbage => (vec![0x40, 201, 0, 0], "g".to_string()),
-                    Wire::Prot(k, ok) => {
+                    Wire::Prot(k, ok, shape) => {
                         let ctx = sys.enc.entry(*k).or_insert_with(|| ref_ctx(*k, 1));
                         let mut b = ctx.encrypt_rtcp(&plain).unwrap().to_vec();
-                        if !*ok { let l = b.len(); b[l - 1] ^= 0x01; }
+                        let mut letter = 'o';
+                        if *ok {
+                            if installed[*t] == Some(*k) && !broken(*k) { last_good.insert((*t, true), (*k, b.clone(), generation[*t])); }
+                        } else { let (fb, l) = forge(&b, *shape, true, last_good.get(&(*t, true)), *k, generation[*t]); b = fb; letter = l; }
                         let as_clear = rustrtc::rtp::parse_rtcp_packets(&b, None).is_ok();
-                        (b, format!("{}{}", match (ok, as_clear) { (true, true) => 'o', (false, true) => 'b', (true, false) => 'O', (false, false) => 'B' }, k))
+                        (b, format!("{}{}", if as_clear { letter } else { letter.to_ascii_uppercase() }, k))
                     }
                 };
                 inj = Some((*t, w.clone(), vec![]));
@@ -376,7 +421,7 @@ pub async fn exec(net: &Net, cfg: &Cfg, ops: &[Op]) -> (Outcome, Vec<String>) {
         let is_send = matches!(op, Op::SendRtp(_) | Op::SendRaw(..) | Op::SendRtcp(_) | Op::SyncBye(_) | Op::Close(_));
         // provenance of a plaintext RTP payload seen somewhere after this op
         let prov_of = |payload: &[u8]| -> String {
-            match &inj { Some((_, Wire::Prot(k, true), pl)) if pl.as_slice() == payload => format!("A{k}"), _ => "U".into() }
+            match &inj { Some((_, Wire::Prot(k, true, _), pl)) if pl.as_slice() == payload => format!("A{k}"), _ => "U".into() }
         };
         // the property's own judgement: may a packet with this provenance be delivered on behalf of `t`?
         let check_in = |fails: &mut Vec<(String, String)>, t: usize, sink: &str, prov: &str| {
@@ -384,7 +429,7 @@ pub async fn exec(net: &Net, cfg: &Cfg, ops: &[Op]) -> (Outcome, Vec<String>) {
                 let good = matches!(installed[t], Some(k) if prov == format!("A{k}"));
                 if !good {
                     let wk = match &inj { Some((_, Wire::Clear, _)) => "clear", Some((_, Wire::Garbage, _)) => "garbage",
-                        Some((_, Wire::Prot(_, true), _)) => "protected-other-or-no-keys", Some((_, Wire::Prot(_, false), _)) => "forged", None => "none" };
+                        Some((_, Wire::Prot(_, true, _), _)) => "protected-other-or-no-keys", Some((_, Wire::Prot(_, false, sh), _)) => ["forged-tag", "forged-truncated", "forged-e-bit", "forged-replay"][(*sh).min(3) as usize], None => "none" };
                     fails.push((format!("in:unauthenticated-delivered:{sink}:{wk}"), format!("step {i} transport {t} prov {prov} installed {:?}", installed[t])));
                 }
             }
@@ -447,7 +492,7 @@ pub async fn exec(net: &Net, cfg: &Cfg, ops: &[Op]) -> (Outcome, Vec<String>) {
             }
             if let Some(rx) = sys.rl[t].as_mut() {
                 while let Ok(pk) = rx.try_recv() {
-                    let pr = match (&inj, &inj_rtcp) { (Some((_, Wire::Prot(k, true), _)), Some(orig)) if *orig == pk => format!("A{k}"), _ => "U".into() };
+                    let pr = match (&inj, &inj_rtcp) { (Some((_, Wire::Prot(k, true, _), _)), Some(orig)) if *orig == pk => format!("A{k}"), _ => "U".into() };
                     check_in(&mut fails, t, "rtcp-listener", &pr);
                     ev.push(format!("D{t}T{pr}"));
                 }
@@ -473,10 +518,10 @@ fn sym(k: usize) -> Op {
         3 => Op::SendRtcp(0),
         4 => Op::SyncBye(0),
         5 => Op::RecvRtp(0, Wire::Clear, false),
-        6 => Op::RecvRtp(0, Wire::Prot(0, true), false),
-        7 => Op::RecvRtp(0, Wire::Prot(10, true), false), // genuine SRTP, but under another session's keys
+        6 => Op::RecvRtp(0, Wire::Prot(0, true, 0), false),
+        7 => Op::RecvRtp(0, Wire::Prot(10, true, 0), false), // genuine SRTP, but under another session's keys
         8 => Op::RecvRtcp(0, Wire::Clear),
-        9 => Op::RecvRtcp(0, Wire::Prot(0, true)),
+        9 => Op::RecvRtcp(0, Wire::Prot(0, true, 0)),
         10 => Op::Bridge(0, 1, None),
         11 => Op::ClearBridge(0),
         12 => Op::Keys(1, 10),
@@ -486,13 +531,14 @@ fn sym(k: usize) -> Op {
 
 fn rand_op(rng: &mut Rng) -> Op {
     let t = rng.below(NT as u64) as usize;
-    let key = |rng: &mut Rng, t: usize| (10 * t as u32) + rng.below(2) as u32;
+    // mostly usable key material, sometimes (1 in 8) an unusable key set (every protect / unprotect fails)
+    let key = |rng: &mut Rng, t: usize| (10 * t as u32) + if rng.chance(1, 8) { 5 } else { rng.below(2) as u32 };
     let wire = |rng: &mut Rng, t: usize| match rng.below(10) {
         0 | 1 => Wire::Clear,
         2 => Wire::Garbage,
-        3 => Wire::Prot(*rng.pick(&KEYS), true),
-        4 => Wire::Prot(10 * t as u32 + rng.below(2) as u32, false),
-        _ => Wire::Prot(10 * t as u32 + rng.below(2) as u32, true),
+        3 => Wire::Prot(*rng.pick(&KEYS), true, 0),
+        4 | 5 => Wire::Prot(10 * t as u32 + rng.below(2) as u32, false, rng.below(4) as u8),
+        _ => Wire::Prot(10 * t as u32 + rng.below(2) as u32, true, 0),
     };
     match rng.below(20) {
         0 | 1 => Op::Keys(t, key(rng, t)),
@@ -508,6 +554,7 @@ fn rand_op(rng: &mut Rng) -> Op {
             Op::Bridge(t, g, v)
         }
         17 => Op::ClearBridge(t),
+        18 => Op::Flags(t, rng.chance(1, 2), rng.chance(1, 2), rng.chance(1, 2)),
         _ => Op::Close(t),
     }
 }
@@ -683,21 +730,23 @@ a=rtpmap:96 VP8/90000\r\na=sendrecv\r\n");
 
 async fn pc_modes(run: &mut Run) {
     use rustrtc::TransportMode;
-    for (mode, name) in [(TransportMode::WebRtc, "webrtc"), (TransportMode::Srtp, "srtp"), (TransportMode::Rtp, "rtp")] {
+    // (mode, name, shape): "pair" = two rustrtc peers (offerer + answerer), "canned" = SDES offerer against a SIP-style answer
+    for (mode, name, shape) in [(TransportMode::WebRtc, "webrtc", "pair"), (TransportMode::Srtp, "srtp", "pair"),
+                                (TransportMode::Srtp, "srtp", "canned"), (TransportMode::Rtp, "rtp", "pair")] {
         for video in [false, true] {
-            let case = format!("mode {name} {}", if video { "audio+video" } else { "audio" });
-            // (connection set-up occasionally fails for reasons outside C14 — retried, then skipped and counted)
-            let mut res = Err(());
+            let case = format!("mode {name} {shape} {}", if video { "audio+video" } else { "audio" });
+            let mut res: Result<Vec<bool>, String> = Err("not run".into());
             for _attempt in 0..4 {
-                let fut = async { if name == "srtp" { answer_sdes_offer(video).await } else { connect_pair(mode.clone(), video).await } };
+                let fut = async { if shape == "canned" { answer_sdes_offer(video).await } else { connect_pair(mode.clone(), video).await } };
                 match tokio::time::timeout(std::time::Duration::from_secs(30), fut).await {
-                    Ok(Ok(f)) => { res = Ok(Ok(f)); break; }
-                    Ok(Err(e)) => { run.count("pc_connect_attempt_failed"); res = Ok(Err(e)); }
-                    Err(_) => { run.count("pc_connect_attempt_timeout"); res = Err(()); }
+                    Ok(Ok(f)) if !f.is_empty() => { res = Ok(f); break; }
+                    Ok(Ok(_)) => { run.count("pc_connect_attempt_no_transport"); res = Err("connected but no RtpTransport was created".into()); }
+                    Ok(Err(e)) => { run.count("pc_connect_attempt_failed"); res = Err(e.to_string()); }
+                    Err(_) => { run.count("pc_connect_attempt_timeout"); res = Err("timeout".into()); }
                 }
             }
             match res {
-                Ok(Ok(flags)) if !flags.is_empty() => {
+                Ok(flags) => {
                     let mut d: Vec<u8> = flags.iter().map(|f| *f as u8).collect();
                     d.sort(); d.dedup();
                     run.case("mode", name, &d.iter().map(|x| x.to_string()).collect::<String>(), true);
@@ -706,11 +755,341 @@ async fn pc_modes(run: &mut Run) {
                         run.fail(&format!("mode:non-mandatory-transport-in-{name}-mode"), &case, &format!("srtp_required flags of the transports held/attached: {flags:?}"));
                     }
                 }
-                Ok(Ok(_)) => run.count("pc_no_transport_created"),
-                Ok(Err(e)) => { run.count("pc_connect_failed"); run.notes.insert(format!("pc_connect_error_{name}_{}", video as u8), serde_json::json!(e.to_string())); }
-                Err(()) => run.count("pc_connect_timeout"),
+                // the only tie of the per-mode transport table must not disappear silently
+                Err(e) => run.fail(&format!("mode:not-checked:{name}:{shape}"), &case, &format!("4 connection attempts failed, last: {e}")),
             }
         }
+    }
+}
+
+// ---------------------------------------------------------------------------------------------
+// wire tap on real PeerConnections: everything above RtpTransport (NACK/RTX retransmission, sender
+// reports, PLI/feedback, close-time BYE, key installation by setup_srtp / setup_sdes)
+
+mod tap {
+    use super::*;
+    use rustrtc::media::frame::{MediaSample, VideoFrame};
+    use rustrtc::{MediaKind, PeerConnection, RtcConfiguration, RtpCodecParameters, SdpType, SessionDescription, SrtpProfile, TransceiverDirection, TransportMode};
+    use std::sync::atomic::{AtomicBool, AtomicU64, Ordering};
+
+    pub const MARKER: &[u8] = b"C14-PLAINTEXT-MARKER-C14-PLAINTEXT-MARKER";
+    pub const INJECT: &[u8] = b"C14-INJECTED-CLEAR-C14-INJECTED-CLEAR";
+
+    /// UDP man in the middle: peer 1 is told peer 2 lives at `a`, peer 2 is told peer 1 lives at `b`.
+    pub struct Relay {
+        pub a: Arc<tokio::net::UdpSocket>,
+        pub b: Arc<tokio::net::UdpSocket>,
+        pub pc1: Mutex<Option<SocketAddr>>,
+        pub pc2: Mutex<Option<SocketAddr>>,
+        /// (direction 1 = peer1→peer2 / 2 = peer2→peer1, datagram) in arrival order
+        pub log: Mutex<Vec<(u8, Vec<u8>)>>,
+        pub lossy: AtomicBool,
+        n_media: AtomicU64,
+        pub dropped: AtomicU64,
+    }
+    impl Relay {
+        pub async fn new() -> Arc<Relay> {
+            let a = Arc::new(tokio::net::UdpSocket::bind("127.0.0.1:0").await.unwrap());
+            let b = Arc::new(tokio::net::UdpSocket::bind("127.0.0.1:0").await.unwrap());
+            let r = Arc::new(Relay { a, b, pc1: Mutex::new(None), pc2: Mutex::new(None), log: Mutex::new(vec![]),
+                lossy: AtomicBool::new(false), n_media: AtomicU64::new(0), dropped: AtomicU64::new(0) });
+            for dir in [1u8, 2u8] {
+                let r2 = r.clone();
+                tokio::spawn(async move {
+                    let mut buf = vec![0u8; 4096];
+                    loop {
+                        let (sock_in, sock_out) = if dir == 1 { (&r2.a, &r2.b) } else { (&r2.b, &r2.a) };
+                        let Ok((n, from)) = sock_in.recv_from(&mut buf).await else { break };
+                        let dg = buf[..n].to_vec();
+                        if dir == 1 { *r2.pc1.lock() = Some(from); } else { *r2.pc2.lock() = Some(from); }
+                        let is_media = n >= 2 && (128..192).contains(&dg[0]);
+                        r2.log.lock().push((dir, dg.clone()));
+                        // induced loss on the media direction: every 6th RTP packet (not RTCP) is withheld
+                        if dir == 1 && is_media && !rustrtc::rtp::is_rtcp(&dg) && r2.lossy.load(Ordering::Relaxed) {
+                            let k = r2.n_media.fetch_add(1, Ordering::Relaxed);
+                            if k % 6 == 5 { r2.dropped.fetch_add(1, Ordering::Relaxed); continue; }
+                        }
+                        let to = if dir == 1 { *r2.pc2.lock() } else { *r2.pc1.lock() };
+                        if let Some(to) = to { let _ = sock_out.send_to(&dg, to).await; }
+                    }
+                });
+            }
+            r
+        }
+    }
+
+    /// rewrite the transport addresses of an SDP (host candidates, or c=/m= in the ICE-less modes) to `to`;
+    /// returns the rewritten text and the peer's real address
+    pub fn readdress(sdp: &str, to: SocketAddr) -> (String, Option<SocketAddr>) {
+        let mut real: Option<SocketAddr> = None;
+        let mut conn_ip: Option<String> = None;
+        let has_cand = sdp.contains("a=candidate:");
+        let mut out = String::new();
+        for line in sdp.lines() {
+            let line = line.trim_end_matches('\r');
+            if let Some(rest) = line.strip_prefix("a=candidate:") {
+                let f: Vec<&str> = rest.split(' ').collect();
+                if f.len() >= 8 && f[2].eq_ignore_ascii_case("udp") {
+                    if real.is_none() { real = format!("{}:{}", f[4], f[5]).parse().ok(); } else { continue; }
+                    let mut g: Vec<String> = f.iter().map(|x| x.to_string()).collect();
+                    g[4] = to.ip().to_string(); g[5] = to.port().to_string();
+                    out.push_str(&format!("a=candidate:{}\r\n", g.join(" ")));
+                }
+                continue;
+            }
+            if !has_cand {
+                if let Some(rest) = line.strip_prefix("c=IN IP4 ") { conn_ip = Some(rest.to_string()); out.push_str(&format!("c=IN IP4 {}\r\n", to.ip())); continue; }
+                if line.starts_with("m=") {
+                    let f: Vec<&str> = line.split(' ').collect();
+                    if real.is_none() && f.len() > 2 { real = conn_ip.as_ref().and_then(|ip| format!("{}:{}", ip, f[1]).parse().ok()); }
+                    let mut g: Vec<String> = f.iter().map(|x| x.to_string()).collect();
+                    if g.len() > 2 { g[1] = to.port().to_string(); }
+                    out.push_str(&g.join(" ")); out.push_str("\r\n");
+                    continue;
+                }
+            }
+            out.push_str(line); out.push_str("\r\n");
+        }
+        (out, real)
+    }
+
+    struct Watch { seen_inject: AtomicBool, seen_marker: AtomicU64 }
+    impl RtpObserver for Watch {
+        fn on_ingress(&self, p: &RtpPacket, _a: SocketAddr) {
+            if contains(&p.payload, INJECT) { self.seen_inject.store(true, Ordering::Relaxed); }
+            if contains(&p.payload, MARKER) { self.seen_marker.fetch_add(1, Ordering::Relaxed); }
+        }
+    }
+    pub fn contains(h: &[u8], n: &[u8]) -> bool { h.windows(n.len()).any(|w| w == n) }
+
+    /// authenticity of one outbound media datagram under the sender's negotiated tx keys
+    pub struct WireAuth { profile: SrtpProfile, key: Vec<u8>, salt: Vec<u8>, rtp_auth: Vec<u8>, rtcp_auth: Vec<u8>, roc: HashMap<u32, (u32, u16)>, gcm: Option<Context> }
+    impl WireAuth {
+        pub fn new(profile: SrtpProfile, key: Vec<u8>, salt: Vec<u8>) -> WireAuth {
+            use ctr::cipher::{KeyIvInit, StreamCipher};
+            let kdf = |label: u8| { let mut iv = [0u8; 16]; iv[..salt.len().min(14)].copy_from_slice(&salt[..salt.len().min(14)]); iv[7] ^= label;
+                let mut out = vec![0u8; 20]; if key.len() >= 16 { let mut c = ctr::Ctr128BE::<aes::Aes128>::new_from_slices(&key[..16], &iv).unwrap(); c.apply_keystream(&mut out); } out };
+            let gcm = if matches!(profile, SrtpProfile::AeadAes128Gcm) { Context::new(&key, &salt, ProtectionProfile::AeadAes128Gcm, None, None).ok() } else { None };
+            WireAuth { profile, rtp_auth: kdf(0x01), rtcp_auth: kdf(0x04), key, salt, roc: HashMap::new(), gcm }
+        }
+        fn hmac(key: &[u8], parts: &[&[u8]], n: usize) -> Vec<u8> {
+            use hmac::Mac;
+            let mut m = <hmac::Hmac<sha1::Sha1> as hmac::digest::KeyInit>::new_from_slice(key).unwrap();
+            for p in parts { m.update(p); }
+            m.finalize().into_bytes()[..n].to_vec()
+        }
+        /// Ok(()) when the datagram is SRTP/SRTCP-protected under these keys; Err(reason) otherwise
+        pub fn check(&mut self, b: &[u8]) -> Result<(), &'static str> {
+            let rtcp = rustrtc::rtp::is_rtcp(b);
+            match self.profile {
+                SrtpProfile::AeadAes128Gcm => {
+                    let Some(ctx) = self.gcm.as_mut() else { return Err("no-reference-context") };
+                    if b.len() < 12 + 16 { return Err("too-short") }
+                    let r = if rtcp { if b[b.len() - 4] & 0x80 == 0 { return Err("srtcp-e-bit-clear") } ctx.decrypt_rtcp(b).map(|_| ()) } else { ctx.decrypt_rtp(b).map(|_| ()) };
+                    r.map_err(|_| "aead-tag-invalid")
+                }
+                SrtpProfile::Aes128Sha1_80 | SrtpProfile::Aes128Sha1_32 => {
+                    let _ = (&self.key, &self.salt);
+                    if rtcp {
+                        if b.len() < 8 + 4 + 10 { return Err("too-short") }
+                        if b[b.len() - 14] & 0x80 == 0 { return Err("srtcp-e-bit-clear") }
+                        if Self::hmac(&self.rtcp_auth, &[&b[..b.len() - 10]], 10) == b[b.len() - 10..] { Ok(()) } else { Err("tag-invalid") }
+                    } else {
+                        let n = if matches!(self.profile, SrtpProfile::Aes128Sha1_32) { 4 } else { 10 };
+                        if b.len() < 12 + n { return Err("too-short") }
+                        let ssrc = u32::from_be_bytes([b[8], b[9], b[10], b[11]]);
+                        let seq = u16::from_be_bytes([b[2], b[3]]);
+                        let (roc, last) = *self.roc.get(&ssrc).unwrap_or(&(0, seq));
+                        // candidates: same ROC, or the neighbours across a wrap
+                        for cand in [roc, roc.wrapping_add(1), roc.wrapping_sub(1)] {
+                            if Self::hmac(&self.rtp_auth, &[&b[..b.len() - n], &cand.to_be_bytes()], n) == b[b.len() - n..] {
+                                if cand > roc || (cand == roc && seq.wrapping_sub(last) < 0x8000) { self.roc.insert(ssrc, (cand, seq)); }
+                                return Ok(());
+                            }
+                        }
+                        Err("tag-invalid")
+                    }
+                }
+                _ => Err("profile-without-encryption"),
+            }
+        }
+    }
+
+    pub struct TapResult { pub kinds: std::collections::BTreeMap<String, u64>, pub fails: Vec<(String, String)>, pub profile: String }
+
+    fn kind_of(b: &[u8]) -> String {
+        if rustrtc::rtp::is_rtcp(b) { format!("rtcp-pt{}", b[1]) } else { format!("rtp-pt{}", b[1] & 0x7f) }
+    }
+
+    /// one session between two real PeerConnections through the relay
+    pub async fn session(mode: TransportMode, name: &str) -> anyhow::Result<TapResult> {
+        let relay = Relay::new().await;
+        let mk = || {
+            let mut c = RtcConfiguration::default();
+            c.transport_mode = mode.clone();
+            c.bind_ip = Some("127.0.0.1".into());
+            let mut caps = rustrtc::config::MediaCapabilities::default();
+            caps.video = vec![rustrtc::config::VideoCapability::vp8_with_rtx(97)];
+            c.media_capabilities = Some(caps);
+            PeerConnection::new(c)
+        };
+        let (pc1, pc2) = (mk(), mk());
+        let (source, track, _fb) = rustrtc::media::track::sample_track(rustrtc::media::frame::MediaKind::Video, 200);
+        let source = Arc::new(source);
+        let _sender = pc1.add_track(track.clone(), RtpCodecParameters { payload_type: 96, name: "VP8".into(), clock_rate: 90000, channels: 0 })?;
+        pc2.add_transceiver(MediaKind::Video, TransceiverDirection::RecvOnly);
+
+        let _ = pc1.create_offer().await?;
+        pc1.wait_for_gathering_complete().await;
+        let offer = pc1.create_offer().await?;
+        let (offer_txt, real1) = readdress(&offer.to_sdp_string(), relay.b.local_addr()?);
+        *relay.pc1.lock() = real1;
+        pc1.set_local_description(offer)?;
+        pc2.set_remote_description(SessionDescription::parse(SdpType::Offer, &offer_txt)?).await?;
+        let _ = pc2.create_answer().await?;
+        pc2.wait_for_gathering_complete().await;
+        let answer = pc2.create_answer().await?;
+        let (answer_txt, real2) = readdress(&answer.to_sdp_string(), relay.a.local_addr()?);
+        *relay.pc2.lock() = real2;
+        pc2.set_local_description(answer)?;
+        pc1.set_remote_description(SessionDescription::parse(SdpType::Answer, &answer_txt)?).await?;
+        tokio::try_join!(pc1.wait_for_connected(), pc2.wait_for_connected())?;
+
+        let t1 = pc1.verif_rtp_transports().0.first().cloned().ok_or_else(|| anyhow::anyhow!("peer 1 has no RtpTransport"))?;
+        let t2 = pc2.verif_rtp_transports().0.first().cloned().ok_or_else(|| anyhow::anyhow!("peer 2 has no RtpTransport"))?;
+        let watch = Arc::new(Watch { seen_inject: AtomicBool::new(false), seen_marker: AtomicU64::new(0) });
+        t2.add_observer(watch.clone());
+
+        // media from peer 1; the relay withholds every 6th RTP packet once the stream runs → NACK → RTX
+        let src2 = source.clone();
+        let stop = Arc::new(AtomicBool::new(false));
+        let stop2 = stop.clone();
+        let sender_task = tokio::spawn(async move {
+            let mut i = 0u32;
+            while !stop2.load(Ordering::Relaxed) {
+                let mut data = vec![0x10u8, 0, 0, 0];
+                data.extend_from_slice(MARKER); data.extend_from_slice(&i.to_be_bytes()); data.extend_from_slice(MARKER);
+                let frame = VideoFrame { rtp_timestamp: i.wrapping_mul(3000), data: Bytes::from(data), is_last_packet: true, ..Default::default() };
+                if src2.send(MediaSample::Video(frame)).is_err() { break; }
+                i += 1;
+                tokio::time::sleep(std::time::Duration::from_millis(15)).await;
+            }
+        });
+        let receiver = pc2.get_transceivers()[0].receiver().ok_or_else(|| anyhow::anyhow!("no receiver"))?;
+        let remote_track = receiver.track();
+        let delivered_inject = Arc::new(AtomicBool::new(false));
+        let di = delivered_inject.clone();
+        let reader = tokio::spawn(async move {
+            use rustrtc::media::MediaStreamTrack;
+            while let Ok(sample) = remote_track.recv().await {
+                if let MediaSample::Video(f) = sample { if contains(&f.data, INJECT) { di.store(true, Ordering::Relaxed); } }
+            }
+        });
+        tokio::time::sleep(std::time::Duration::from_millis(400)).await;
+        relay.lossy.store(true, Ordering::Relaxed);
+        tokio::time::sleep(std::time::Duration::from_millis(600)).await;
+        // feedback from the receiving side
+        let _ = receiver.request_key_frame().await;
+        // cleartext injected towards peer 2 from the address peer 2 trusts (the relay's b socket): RTP with the
+        // live stream's SSRC and payload type, and an RTCP BYE for it
+        let media_ssrc = relay.log.lock().iter().rev().find(|(d, b)| *d == 1 && b.len() > 12 && (128..192).contains(&b[0]) && !rustrtc::rtp::is_rtcp(b))
+            .map(|(_, b)| u32::from_be_bytes([b[8], b[9], b[10], b[11]])).unwrap_or(1);
+        if let Some(to) = *relay.pc2.lock() {
+            for k in 0..3u16 {
+                let mut payload = vec![0x10u8, 0, 0, 0]; payload.extend_from_slice(INJECT);
+                let mut h = RtpHeader::new(96, 40000 + k, 123456, media_ssrc); h.marker = true;
+                let _ = relay.b.send_to(&RtpPacket::new(h, payload).marshal().unwrap(), to).await;
+            }
+            let bye = rustrtc::rtp::marshal_rtcp_packets(&[RtcpPacket::Goodbye(Goodbye { sources: vec![media_ssrc], reason: Some("injected".into()) })]).unwrap();
+            let _ = relay.b.send_to(&bye, to).await;
+        }
+        // long enough for the first sender report (3 s after the stream started)
+        tokio::time::sleep(std::time::Duration::from_millis(2400)).await;
+        let marker_seen_by_peer2 = watch.seen_marker.load(Ordering::Relaxed);
+        stop.store(true, Ordering::Relaxed);
+        let _ = sender_task.await;
+        // negotiated keys, read from the sessions setup_srtp / setup_sdes installed
+        let k1 = t1.verif_lc_srtp_keying();
+        let k2 = t2.verif_lc_srtp_keying();
+        // key installation (setup_srtp) run on the live DTLS association for every use_srtp outcome, both roles: the
+        // installed profile must be an encrypting one, keys must exist, and the client/server split must be mirrored
+        // (run on peer 2: the probe re-points that peer's transceivers at a scratch transport, so what peer 2 sends
+        // afterwards — its own BYE — is keyed with scratch keys and is left out of the wire check; peer 1 is untouched)
+        let mut fails = vec![];
+        let probe_from = relay.log.lock().len();
+        if name == "webrtc" {
+            for opt in [None, Some(1u16), Some(2), Some(7), Some(0x9999)] {
+                let c = pc2.verif_lc_setup_srtp(true, opt);
+                let sv = pc2.verif_lc_setup_srtp(false, opt);
+                for (role, k) in [("client", &c), ("server", &sv)] {
+                    match k {
+                        None => fails.push((format!("keys:no-session-installed:{role}:{opt:?}"), "setup_srtp installed no session".into())),
+                        Some(k) => {
+                            if !matches!(k.0, SrtpProfile::Aes128Sha1_80 | SrtpProfile::Aes128Sha1_32 | SrtpProfile::AeadAes128Gcm) {
+                                fails.push((format!("keys:non-encrypting-profile-installed:{opt:?}"), format!("{role}: profile {:?}", k.0)));
+                            }
+                            if k.1.len() < 16 || k.3.len() < 16 || k.1 == k.3 { fails.push((format!("keys:unusable-or-unsplit-keys:{role}:{opt:?}"), format!("tx {} bytes, rx {} bytes", k.1.len(), k.3.len()))); }
+                        }
+                    }
+                }
+                if let (Some(c), Some(sv)) = (&c, &sv) { if c.1 != sv.3 || c.3 != sv.1 || c.2 != sv.4 || c.4 != sv.2 { fails.push((format!("keys:client-server-split-not-mirrored:{opt:?}"), "client tx keys are not the server's rx keys".into())); } }
+            }
+        }
+        pc1.close();
+        pc2.close();
+        tokio::time::sleep(std::time::Duration::from_millis(150)).await;
+        reader.abort();
+
+        let mut kinds = std::collections::BTreeMap::new();
+        let profile = k1.as_ref().map(|k| format!("{:?}", k.0)).unwrap_or("none".into());
+        let mut auth = [k1.map(|k| WireAuth::new(k.0, k.1, k.2)), k2.map(|k| WireAuth::new(k.0, k.1, k.2))];
+        let log = relay.log.lock().clone();
+        for (idx, (dir, b)) in log.iter().enumerate() {
+            if b.len() < 2 || !(128..192).contains(&b[0]) { continue; } // STUN / DTLS
+            if name == "webrtc" && *dir == 2 && idx >= probe_from { continue; } // peer 2 after the setup_srtp probe (see above)
+            let kind = kind_of(b);
+            *kinds.entry(format!("dir{dir}:{kind}")).or_insert(0) += 1;
+            if contains(b, MARKER) { fails.push((format!("wire:payload-visible-in-clear:{name}:{kind}"), format!("direction {dir}, {} bytes", b.len()))); }
+            match auth[(*dir - 1) as usize].as_mut() {
+                None => fails.push((format!("wire:media-without-session-keys:{name}:{kind}"), format!("direction {dir}, {} bytes", b.len()))),
+                Some(a) => if let Err(why) = a.check(b) { fails.push((format!("wire:not-protected-under-negotiated-keys:{name}:{kind}"), format!("direction {dir}: {why}, {} bytes, first bytes {}", b.len(), crate::hex(&b[..b.len().min(16)])))); },
+            }
+        }
+        if watch.seen_inject.load(Ordering::Relaxed) { fails.push((format!("wire:injected-cleartext-reached-observer:{name}"), "on_ingress saw the injected clear RTP".into())); }
+        if delivered_inject.load(Ordering::Relaxed) { fails.push((format!("wire:injected-cleartext-reached-track:{name}"), "the remote track delivered the injected clear RTP".into())); }
+        kinds.insert("relay_dropped_rtp".into(), relay.dropped.load(Ordering::Relaxed));
+        kinds.insert("peer2_ingress_packets_with_marker".into(), marker_seen_by_peer2);
+        Ok(TapResult { kinds, fails, profile })
+    }
+}
+
+/// run the tapped sessions; what must have been seen on the wire for the session to count
+async fn wire_tap(run: &mut Run) {
+    use rustrtc::TransportMode;
+    for (mode, name) in [(TransportMode::WebRtc, "webrtc"), (TransportMode::Srtp, "srtp")] {
+        // RTX (pt 97), NACK (RTCP 205), PLI (206), SR (200), BYE (203), media (pt 96) in the sender direction
+        let need = ["dir1:rtp-pt96", "dir1:rtp-pt97", "dir2:rtcp-pt205", "dir2:rtcp-pt206", "dir1:rtcp-pt200", "dir1:rtcp-pt203"];
+        let mut last_err = String::from("not run");
+        let mut done = false;
+        for _attempt in 0..3 {
+            match tokio::time::timeout(std::time::Duration::from_secs(40), tap::session(mode.clone(), name)).await {
+                Ok(Ok(r)) => {
+                    let missing: Vec<&str> = need.iter().copied().filter(|k| r.kinds.get(*k).copied().unwrap_or(0) == 0).collect();
+                    for (sig, detail) in &r.fails { run.fail(sig, &format!("wire {name}"), detail); }
+                    if !r.fails.is_empty() || missing.is_empty() {
+                        for (k, v) in &r.kinds { run.count_n(&format!("wire_{name}_{k}"), *v); }
+                        run.notes.insert(format!("wire_{name}_profile"), serde_json::json!(r.profile));
+                        done = true;
+                        break;
+                    }
+                    last_err = format!("traffic kinds not seen on the wire: {missing:?} (seen {:?})", r.kinds);
+                    run.count("wire_session_incomplete_retry");
+                }
+                Ok(Err(e)) => { last_err = e.to_string(); run.count("wire_session_failed_retry"); }
+                Err(_) => { last_err = "timeout".into(); run.count("wire_session_timeout_retry"); }
+            }
+        }
+        if !done { run.fail(&format!("wire:not-checked:{name}"), &format!("wire {name}"), &last_err); }
     }
 }
 
@@ -720,6 +1099,14 @@ pub fn run(args: &Args) {
     rt.block_on(async {
         let net = Net::new(NT).await;
         if let Some(case) = &args.replay {
+            if let Some(rest) = case.strip_prefix("wire ") {
+                let mode = match rest.trim() { "srtp" => rustrtc::TransportMode::Srtp, "rtp" => rustrtc::TransportMode::Rtp, _ => rustrtc::TransportMode::WebRtc };
+                match tap::session(mode, rest.trim()).await {
+                    Ok(r) => { println!("impl: profile {} kinds {:?}", r.profile, r.kinds); for (s, d) in r.fails.iter().take(20) { println!("ORACLE-FAIL {s} {d}"); } println!("{} oracle failures", r.fails.len()); }
+                    Err(e) => println!("session failed: {e}"),
+                }
+                return;
+            }
             let (cfg, ops) = parse_case(case);
             let (out, _) = exec(&net, &cfg, &ops).await;
             println!("impl: {}", out.events.join(" "));
@@ -728,6 +1115,8 @@ pub fn run(args: &Args) {
         }
         // (0) real PeerConnection pairs per transport mode: srtp_required of every transport object created
         pc_modes(&mut run).await;
+        // (0b) wire tap on real PeerConnections (NACK/RTX, SR, PLI, BYE, negotiated keys, injected cleartext)
+        wire_tap(&mut run).await;
         // (1) exhaustive: all sequences of length L over the 14-symbol alphabet × (source, target) mandatory flags
         let len = if args.tier_thorough { 5 } else { 4 };
         let total = NSYM.pow(len as u32);
@@ -777,8 +1166,11 @@ pub fn parse_case(s: &str) -> (Cfg, Vec<Op>) {
     }
     let wire = |w: &str| match &w[..1] {
         "c" => Wire::Clear, "g" => Wire::Garbage,
-        "o" | "O" => Wire::Prot(w[1..].parse().unwrap(), true),
-        _ => Wire::Prot(w[1..].parse().unwrap(), false),
+        "o" | "O" => Wire::Prot(w[1..].parse().unwrap(), true, 0),
+        "t" | "T" => Wire::Prot(w[1..].parse().unwrap(), false, 1),
+        "e" | "E" => Wire::Prot(w[1..].parse().unwrap(), false, 2),
+        "y" | "Y" => Wire::Prot(w[1..].parse().unwrap(), false, 3),
+        _ => Wire::Prot(w[1..].parse().unwrap(), false, 0),
     };
     let mut ops = vec![];
     for t in it {
@@ -790,6 +1182,7 @@ pub fn parse_case(s: &str) -> (Cfg, Vec<Op>) {
             "rr" => Op::RecvRtp(n(1), wire(f[2]), f[3] == "1"), "rc" => Op::RecvRtcp(n(1), wire(f[2])),
             "br" => Op::Bridge(n(1), n(2), if f[3] == "-" { None } else { Some(n(3)) }),
             "bc" => Op::ClearBridge(n(1)), "cl" => Op::Close(n(1)),
+            "fl" => Op::Flags(n(1), f[2] == "1", f[3] == "1", f[4] == "1"),
             x => panic!("bad op {x}"),
         });
     }
